@@ -20,7 +20,7 @@ def setup(env):
     """Load sharded_base / sharded_file_accessor with the stand-ins bound to env."""
     npx = NPProxy()
     sb = load.patch("sharded_base", np=npx, zlib=env.zlib, int=sym_int)
-    load.patch("file_accessor", pathlib=env.pathlib, os=env.os, gzip=env.gzip)
+    load.patch("file_accessor", pathlib=env.pathlib, os=env.os, gzip=env.gzip, open=env.open)
     sfa = load.preseed("sharded_file_accessor", bytearray=SByteArray, bytes=sym_bytes, open=env.open,
                        pathlib=env.pathlib, TemporaryDirectory=env.TemporaryDirectory, uuid4=env.uuid4,
                        struct=StructProxy(), np=npx, print=lambda *a, **k: None, int=sym_int)
